@@ -18,6 +18,9 @@ FORMATS = [
     ("Yd", False, "ymd"), ("Ywd", False, "ywd"), ("mwd", False, "ymd"), ("Ymwd", False, "ymd"),
     ("dHMS", True, "ymd"), ("HMS", True, "ymd"), ("S", True, "ymd"), ("wdHMS", True, "ymd"),
     ("mdHMS", True, "ymd"), ("YmdHMS", True, "ymd"), ("MS", True, "ymd"), ("dS", True, "ymd"),
+    # the fixed-length units added back in other carriers of the value than ymd
+    ("wd", False, "ywd"), ("d", False, "ywd"), ("wd", False, "ymcw"), ("d", False, "yd"),
+    ("wdHMS", True, "epoch"), ("dHMS", True, "epoch"), ("S", True, "epoch"),
 ]
 DUNIT = {"Y": "y", "m": "mo", "w": "w", "d": "d", "H": "h", "M": "m", "S": "s"}
 INCALS = ["ymd", "ywd", "ymcw"]
